@@ -176,7 +176,53 @@ def gen_case(rng, i=0):
     case['environ'] = env
     if mode == 'twice':
         case['accept2'] = rand_accept(rng)
+    if rng.random() < 0.3:
+        surface(rng, case)
     return case
+
+
+CONTENT_TYPES = ['text/html', 'application/json', 'text/plain', 'image/png', 'application/xml', 'text/plain; charset=latin-1',
+                 'application/json; charset=utf-8', 'TEXT/HTML', 'text/html; charset=iso-8859-1', 'application/vnd.api+json', 'x']
+CHARSETS = ['latin-1', 'utf-8', 'utf-16', '<None>']
+
+
+def surface(rng, case):
+    """the rest of the caller-visible surface that survives into prepare(): Response keywords, a Content-Type header,
+    attribute assignment after construction, exception_response()"""
+    ctor, after = {}, []
+    r = rng.random()
+    if r < 0.45:
+        ctor['content_type'] = rng.choice(CONTENT_TYPES)
+    elif r < 0.55:
+        case['headers'] = (case.get('headers') or []) + [[rng.choice(['Content-Type', 'content-type', 'CONTENT-TYPE']), rng.choice(CONTENT_TYPES)]]
+    elif r < 0.8:
+        after.append(['content_type', rng.choice(CONTENT_TYPES + ['<del>'])])
+    if rng.random() < 0.2:
+        if rng.random() < 0.5:
+            ctor['charset'] = rng.choice(CHARSETS)
+        else:
+            after.append(['charset', rng.choice(CHARSETS)])
+    k = rng.random()
+    if k < 0.08:
+        ctor['body'] = rng.choice(['given', '', '<b>given</b>'])
+    elif k < 0.12:
+        ctor['text'] = rng.choice(['given', ''])
+    elif k < 0.16:
+        ctor['app_iter'] = rng.choice([['given'], ['a', 'b'], [''], []])
+    elif k < 0.19:
+        ctor['json_body'] = {'a': 1}
+    if rng.random() < 0.1:
+        ctor['json_formatter'] = True
+    if rng.random() < 0.15:
+        after.append([rng.choice(['detail', 'comment']), rand_text(rng)])
+    if rng.random() < 0.05:
+        after.append(['status', rng.choice(['499 Custom', '404 <Not> Found', '200 OK'])])
+    if ctor:
+        case['ctor'] = ctor
+    if after:
+        case['after'] = after
+    if not case.get('sub') and rng.random() < 0.25 and HX.status_map.get(getattr(HX, case['cls']).code) is getattr(HX, case['cls']):
+        case['via'] = 'exception_response'
 
 
 # ------------------------------------------------------------------------------------------------ implementation side
@@ -201,6 +247,10 @@ def wsgi_extras(env):
     return env
 
 
+def _alt_formatter(status, body, title, environ):
+    return {'error': body, 'status': status, 'n': 1}
+
+
 def make_exc(case):
     cls = getattr(HX, case['cls'])
     sub = case.get('sub')
@@ -217,11 +267,49 @@ def make_exc(case):
         kw['location'] = case['location']
     if case.get('body_template') is not None:
         kw['body_template'] = case['body_template']
+    # the rest of the caller-visible constructor surface (Response keywords)
+    for k, v in (case.get('ctor') or {}).items():
+        if k in ('content_type', 'charset'):
+            kw[k] = None if v == '<None>' else v
+        elif k == 'body':
+            kw['body'] = v.encode('utf-8')
+        elif k == 'text':
+            kw['text'] = v
+        elif k == 'app_iter':
+            kw['app_iter'] = [x.encode('utf-8') for x in v]
+        elif k == 'json_body':
+            kw['json_body'] = v
+        elif k == 'json_formatter' and v:
+            kw['json_formatter'] = _alt_formatter
     hdrs = [tuple(h) for h in case.get('headers') or []]
-    exc = cls(detail=case.get('detail'), comment=case.get('comment'), headers=hdrs or None, **kw)
+    if case.get('via') == 'exception_response':
+        exc = HX.exception_response(cls.code, detail=case.get('detail'), comment=case.get('comment'), headers=hdrs or None, **kw)
+        if type(exc) is not cls:
+            raise RuntimeError('exception_response(%s) is not %s' % (cls.code, cls.__name__))
+    else:
+        exc = cls(detail=case.get('detail'), comment=case.get('comment'), headers=hdrs or None, **kw)
     if case.get('explanation') is not None:
         exc.explanation = case['explanation']
+    for attr, val in case.get('after') or []:
+        if attr not in ('content_type', 'charset', 'detail', 'comment', 'explanation', 'status'):
+            raise ValueError('unsupported attribute %s' % attr)
+        if val == '<del>':
+            delattr(exc, attr)
+        else:
+            setattr(exc, attr, None if val == '<None>' else val)
     return exc
+
+
+def pre_state(exc):
+    """what prepare() finds: the header list, whether there is a body, and a way to see that nothing was touched"""
+    it = exc.app_iter
+    return {'headers': [[k, v] for k, v in exc.headers.items()], 'has_body': bool(exc.has_body),
+            '_iter': it, '_copy': list(it) if isinstance(it, list) else None}
+
+
+def untouched(exc, pre):
+    return (exc.app_iter is pre['_iter'] and (pre['_copy'] is None or list(exc.app_iter) == pre['_copy'])
+            and [[k, v] for k, v in exc.headers.items()] == pre['headers'])
 
 
 _APP = None
@@ -239,7 +327,7 @@ def app():
             except Exception:
                 _CURRENT['construct_failed'] = True
                 raise
-            _CURRENT['headers'] = [[k, v] for k, v in exc.headers.items()]
+            _CURRENT['pre'] = pre_state(exc)
             raise exc
 
         config = Configurator()
@@ -248,14 +336,14 @@ def app():
     return _APP
 
 
-def _obs(exc_or_none, ctype, body):
+def _obs(exc_or_none, ctype, body, header=None):
     if not body and ctype is None:
         return {'r': 'untouched'}
     try:
         text = body.decode('utf-8')
     except UnicodeDecodeError:
         return {'r': 'raised', 'type': 'undecodable-body'}
-    return {'r': 'ok', 'ctype': ctype, 'body': text}
+    return {'r': 'ok', 'ctype': ctype, 'ctype_header': header, 'body': text}
 
 
 def _err(e):
@@ -266,21 +354,26 @@ def _err(e):
     return {'r': 'raised', 'type': type(e).__name__, 'msg': str(e)[:120]}
 
 
+EMPTY_PRE = {'headers': [], 'has_body': False}
+
+
 def impl(case):
-    """-> (observation, headers seen before prepare, header content type or None)"""
+    """-> (observation, state of the exception before prepare, Content-Type header sent or None)"""
     mode = case['mode']
     try:
         if mode in ('prepare', 'twice', 'wsgi'):
             try:
                 make_exc(case)
             except Exception as e:      # e.g. WebOb refuses control characters in a header value: no response to render
-                return {'r': 'construct-failed', 'type': type(e).__name__}, [], None
+                return {'r': 'construct-failed', 'type': type(e).__name__}, EMPTY_PRE, None
         if mode in ('prepare', 'twice'):
             exc = make_exc(case)
-            hdrs = [[k, v] for k, v in exc.headers.items()]
+            pre = pre_state(exc)
             env = base_environ(case)
             try:
                 exc.prepare(env)
+                if pre['has_body']:
+                    return ({'r': 'untouched'} if untouched(exc, pre) else {'r': 'raised', 'type': 'prepare-touched-a-response-with-body'}), pre, None
                 if mode == 'twice':
                     first = exc.body
                     env2 = dict(env)
@@ -290,19 +383,20 @@ def impl(case):
                     exc.prepare(env2)
                     if not first and not exc.empty_body:
                         # the first rendering was empty, so has_body is still false and the second prepare renders afresh
-                        second = _obs(exc, exc.content_type, exc.body)
+                        second = _obs(exc, exc.content_type, exc.body, exc.headers.get('Content-Type'))
                         second['eff_accept'] = case.get('accept2')
-                        return second, hdrs, exc.headers.get('Content-Type')
+                        return second, pre, exc.headers.get('Content-Type')
                     if exc.body != first:
-                        return {'r': 'raised', 'type': 'second-prepare-changed-body'}, hdrs, None
+                        return {'r': 'raised', 'type': 'second-prepare-changed-body'}, pre, None
             except Exception as e:
-                return _err(e), hdrs, None
+                return _err(e), pre, None
             if exc.empty_body:
-                return ({'r': 'untouched'} if not exc.body else {'r': 'raised', 'type': 'empty-body-class-has-body'}), hdrs, None
-            return _obs(exc, exc.content_type, exc.body), hdrs, exc.headers.get('Content-Type')
+                return ({'r': 'untouched'} if not exc.body else {'r': 'raised', 'type': 'empty-body-class-has-body'}), pre, None
+            return _obs(exc, exc.content_type, exc.body, exc.headers.get('Content-Type')), pre, exc.headers.get('Content-Type')
         if mode == 'wsgi':
             exc = make_exc(case)
-            hdrs = [[k, v] for k, v in exc.headers.items()]
+            pre = pre_state(exc)
+            given = b''.join(pre['_copy']) if pre['has_body'] and pre['_copy'] is not None else None
             env = wsgi_extras(base_environ(case))
             got = {}
 
@@ -311,11 +405,13 @@ def impl(case):
             try:
                 body = b''.join(exc(env, start_response))
             except Exception as e:
-                return _err(e), hdrs, None
+                return _err(e), pre, None
+            if pre['has_body']:
+                return ({'r': 'untouched'} if given is None or body == given else {'r': 'raised', 'type': 'caller-body-replaced'}), pre, None
             if exc.empty_body:
-                return ({'r': 'untouched'} if not body else {'r': 'raised', 'type': 'empty-body-class-has-body'}), hdrs, None
+                return ({'r': 'untouched'} if not body else {'r': 'raised', 'type': 'empty-body-class-has-body'}), pre, None
             ct = [v for k, v in got['headers'] if k.lower() == 'content-type']
-            return _obs(exc, exc.content_type, body), hdrs, (ct[0] if ct else None)
+            return _obs(exc, exc.content_type, body, ct[0] if ct else None), pre, (ct[0] if ct else None)
         # router modes
         env = wsgi_extras(base_environ(case))
         if mode == 'router_404':
@@ -333,16 +429,20 @@ def impl(case):
             body = b''.join(app()(env, start_response))
         except Exception as e:
             if _CURRENT.get('construct_failed'):
-                return {'r': 'construct-failed', 'type': type(e).__name__}, [], None
-            return _err(e), _CURRENT.get('headers', []), None
+                return {'r': 'construct-failed', 'type': type(e).__name__}, EMPTY_PRE, None
+            return _err(e), _CURRENT.get('pre', EMPTY_PRE), None
+        pre = _CURRENT.get('pre', EMPTY_PRE)
         ct = [v for k, v in got['headers'] if k.lower() == 'content-type']
         hct = ct[0] if ct else None
+        if pre['has_body']:
+            given = b''.join(pre['_copy']) if pre.get('_copy') is not None else None
+            return ({'r': 'untouched'} if given is None or body == given else {'r': 'raised', 'type': 'caller-body-replaced'}), pre, None
         if mode == 'router_raise' and getattr(HX, case['cls']).empty_body:
-            return ({'r': 'untouched'} if not body else {'r': 'raised', 'type': 'empty-body-class-has-body'}), _CURRENT.get('headers', []), None
-        mime = hct.split(';')[0].strip() if hct else None
-        return _obs(None, mime, body), _CURRENT.get('headers', []), hct
+            return ({'r': 'untouched'} if not body else {'r': 'raised', 'type': 'empty-body-class-has-body'}), pre, None
+        mime = hct.split(';')[0] if hct else None
+        return _obs(None, mime, body, hct), pre, hct
     except Exception as e:           # construction failures etc.
-        return {'r': 'raised', 'type': type(e).__name__, 'msg': str(e)[:120]}, [], None
+        return {'r': 'raised', 'type': type(e).__name__, 'msg': str(e)[:120]}, EMPTY_PRE, None
 
 
 # ------------------------------------------------------------------------------------------------ model side
@@ -368,8 +468,9 @@ def eff_accept(case, obs):
     return obs['eff_accept'] if obs is not None and 'eff_accept' in obs else case.get('accept')
 
 
-def to_model(ctx, case, hdrs, obs=None):
-    """the driver's input for a case; `hdrs` = exc.headers.items() as it was before prepare"""
+def to_model(ctx, case, pre, obs=None):
+    """the driver's input for a case; `pre` = exc.headers.items() and exc.has_body as they were before prepare"""
+    hdrs = pre['headers']
     if obs is not None and 'eff_accept' in obs:
         case = dict(case, accept=obs['eff_accept'])
     if case['mode'] == 'router_404':
@@ -381,7 +482,12 @@ def to_model(ctx, case, hdrs, obs=None):
             env[k] = 'n/a'          # dotted keys can never be referred to by a placeholder
     if case['mode'] == 'router_raise':
         env['PATH_INFO'] = '/__raise__'
-    m = {'detail': case.get('detail'), 'comment': case.get('comment'), 'explanation': case.get('explanation'),
+    late = {}
+    for attr, val in case.get('after') or []:
+        if attr in ('detail', 'comment', 'explanation', 'status'):
+            late[attr] = None if val in ('<None>', '<del>') else val
+    m = {'detail': late.get('detail', case.get('detail')), 'comment': late.get('comment', case.get('comment')),
+         'explanation': late.get('explanation', case.get('explanation')), 'status': late.get('status'), 'has_body': pre['has_body'],
          'body_template': case.get('body_template'), 'headers': hdrs, 'environ': [[k, v] for k, v in env.items()],
          'q': q_values(case.get('accept'))}
     sub = case.get('sub')
@@ -400,7 +506,7 @@ def model_view(mo):
     if mo is None:
         return None
     if mo.get('r') == 'ok':
-        return {'r': 'ok', 'ctype': mo['ctype'], 'body': mo['body']}
+        return {'r': 'ok', 'ctype': mo['ctype'], 'ctype_header': mo.get('ctype_header'), 'body': mo['body']}
     return {k: mo[k] for k in ('r', 'err', 'name') if k in mo} if 'r' in mo else mo
 
 
@@ -423,6 +529,9 @@ def supplied_texts(case):
             out.append(((k,), case[k]))
     if case.get('sub') and case['sub'].get('explanation'):
         out.append((('sub', 'explanation'), case['sub']['explanation']))
+    for i, (k, v) in enumerate(case.get('after') or []):
+        if k in ('detail', 'comment', 'explanation') and v and v not in ('<None>', '<del>'):
+            out.append((('after', i, 1), v))
     for i, (k, v) in enumerate(case.get('headers') or []):
         if v:
             out.append((('headers', i, 1), v))
@@ -526,7 +635,8 @@ def check_property(case, obs, hct=None):
             skj = json.loads(sk['body'])
         except ValueError as e:
             return {'case': case, 'impl': {'body': body}, 'expected': 'valid JSON', 'detail': 'JSON body does not parse: %s' % e}
-        if not isinstance(got, dict) or not isinstance(got.get('message'), str):
+        custom_fmt = bool((case.get('ctor') or {}).get('json_formatter')) and case.get('mode') != 'router_404'
+        if not isinstance(got, dict) or (not custom_fmt and not isinstance(got.get('message'), str)):
             return {'case': case, 'impl': {'body': body}, 'expected': 'object with a string message', 'detail': 'JSON body has no message'}
         exp = {k: (replace_all(v, toks, lambda t: t) if isinstance(v, str) else v) for k, v in skj.items()}
         if got != exp:
@@ -577,11 +687,16 @@ def check_case(ctx, case, mo, obs=None, hdrs=None, hct=None):
     mism = None
     if obs['r'] == 'construct-failed':
         return None, None, obs
+    custom_fmt = bool((case.get('ctor') or {}).get('json_formatter')) and case.get('mode') != 'router_404'
     if mo is not None:
         mv = model_view(mo)
-        if mv != {k: v for k, v in obs.items() if k != 'eff_accept'}:
+        ov = {k: v for k, v in obs.items() if k != 'eff_accept'}
+        if custom_fmt and mv.get('r') == 'ok' and mv.get('ctype') == 'application/json' and ov.get('r') == 'ok':
+            # a caller's json_formatter is outside the model: compare everything but the body
+            mv = dict(mv, body=None); ov = dict(ov, body=None)
+        if mv != ov:
             mism = {'case': case, 'impl': obs, 'model': mv}
-        elif mo.get('r') == 'ok':
+        elif mo.get('r') == 'ok' and not (custom_fmt and mo.get('form') == 'json'):
             sp = mo.get('spec') or {}
             r = sp.get('render') or {}
             want_body = mo['body'] if mo['form'] != 'json' else None
@@ -648,6 +763,14 @@ def run_cases(ctx, cases, dist=None):
             bump(dist, 'custom_template_cases')
         if case.get('sub'):
             bump(dist, 'adhoc_subclass_cases')
+        for k in (case.get('ctor') or {}):
+            bump(dist.setdefault('constructor_surface', {}), 'ctor:' + k)
+        for k, _ in (case.get('after') or []):
+            bump(dist.setdefault('constructor_surface', {}), 'assigned:' + k)
+        if case.get('via'):
+            bump(dist.setdefault('constructor_surface', {}), 'exception_response')
+        if any(k.lower() == 'content-type' for k, _ in case.get('headers') or []):
+            bump(dist.setdefault('constructor_surface', {}), 'header:Content-Type')
         if case.get('cls'):
             dist.setdefault('classes_seen', set()).add(case['cls'])
         key = vfutil.canon(case)
@@ -726,10 +849,11 @@ def run(ctx):
             'notes': ['the q-value of each of text/html, application/json, text/plain is computed by WebOb for the case\'s Accept header and given to the model as data',
                       'exc.headers.items() is read from the constructed exception before prepare() and given to the model as data',
                       'the oracle renders each case a second time with inert tokens in place of the supplied texts (implementation only)'],
-            'assumptions': ['supplied texts are Python str without lone surrogates (Lean Char = Unicode scalar value)',
+            'assumptions': ['exc.has_body is read from the constructed exception before prepare() and given to the model as data',
+                            'supplied texts are Python str without lone surrogates (Lean Char = Unicode scalar value)',
                             'detail/comment/explanation/header/environ values are str (str()/__html__ conversion of other objects is not modelled)',
                             'response header names are ASCII (str.lower is modelled on ASCII letters)',
-                            'a custom json_formatter is outside the model'],
+                            'a custom json_formatter is outside the model (content type and header are still compared, the oracle still applies)'],
             'trusted_base': ['WebOb: Accept header parsing and per-offer q-values (acceptparse), Response header list / content_type / body plumbing, html_escape (tied by the escape stream)',
                              'stdlib: string.Template.pattern (tied by the template stream), json.dumps / json.loads, str.encode',
                              'translator extract/c19.py (class table, templates, prepare() structure)']}
@@ -758,6 +882,23 @@ def search(ctx):
                         c['location'] = '/x<y>'
                     cases.append(c)
     cases += [{'mode': 'router_404', 'path': '/' + d, 'accept': a} for d in details for a in accepts]
+    # the caller's initial content type x Accept x 3 classes x how it was set
+    for name in ('HTTPNotFound', 'HTTPBadRequest', 'HTTPFound'):
+        for ct in [None, 'text/html', 'application/json', 'text/plain', 'image/png', 'text/plain; charset=latin-1']:
+            for how in ('kw', 'attr', 'header', 'exception_response'):
+                for acc in accepts:
+                    for mode in ('prepare', 'wsgi'):
+                        c = {'mode': mode, 'cls': name, 'accept': acc, 'detail': '<', 'comment': None, 'headers': [], 'environ': []}
+                        if name == 'HTTPFound':
+                            c['location'] = '/x'
+                        if ct is not None:
+                            if how == 'kw': c['ctor'] = {'content_type': ct}
+                            elif how == 'attr': c['after'] = [['content_type', ct]]
+                            elif how == 'header': c['headers'] = [['Content-Type', ct]]
+                            else: c['ctor'] = {'content_type': ct}; c['via'] = 'exception_response'
+                        elif how != 'kw':
+                            continue
+                        cases.append(c)
     for c in cases:
         n += 1
         o, _, h = impl(c)
@@ -770,7 +911,8 @@ def search(ctx):
         if ctx.time_left() < 60:
             return {'violations': [shrink_violation(ctx, x) for x in viol], 'searched': n, 'exhaustive': False}
     return {'violations': [shrink_violation(ctx, x) for x in viol], 'searched': n, 'exhaustive': len(viol) == 0,
-            'scope': 'every class x {0,0.5,1}^3 q-combinations (+5 headers) x 11 hostile details x comment in {None,"<"}; router 404 for the same details'}
+            'scope': 'every class x {0,0.5,1}^3 q-combinations (+5 headers) x 11 hostile details x comment in {None,"<"}; router 404 for the same details; '
+                     '{HTTPNotFound, HTTPBadRequest, HTTPFound} x 6 initial content types x {keyword, attribute, header, exception_response} x the same Accept headers x {prepare, wsgi}'}
 
 
 def replay(ctx, rep):
